@@ -245,6 +245,10 @@ pub fn embedding(name: &str) -> Embedding {
         // with a weight below 1, or with a ratio of counts, is subnormal and loses bits (C17)
         "E14" => Embedding { name: "E14", a: 0.0, b: p2(-1021) },
         "E15" => Embedding { name: "E15", a: 0.0, b: 1.2 * p2(1023) },
+        // not a power of two: x = fl(0.1 * v) carries a rounding of its own, so sums of such values
+        // are inexact at every step (compensated-summation carries are non-zero).  Only for
+        // comparisons of two real executions (C18) and panic / length checks, never for values.
+        "E16" => Embedding { name: "E16", a: 0.0, b: 0.1 },
         "EM1" => Embedding { name: "EM1", a: 0.0, b: 1.0 },
         _ => panic!("unknown embedding {name}"),
     }
